@@ -1,6 +1,7 @@
 """C02 - keys address entries by documented equality and never alias."""
 
 import json
+import os
 import pickle
 import pickletools
 
@@ -17,7 +18,7 @@ RULE = ('pools of ~40 keys (str/bytes/int in and out of int64/float incl. -0.0, 
         '= ordered key pairs judged; distinct_nontrivial = distinct (identity-class pair, same/different, disk, '
         'protocol) cells plus distinct (flavour, pair kind) cells')
 DISTINCT = ('pair_cells', 'flavour_cells')
-REQUIRED = ('pools', 'pairs_equal_identity', 'pairs_distinct_identity', 'flavour_cases', 'iteration_keys_checked',
+REQUIRED = ('pools_in_a_fanout_read_through_reopened_handle', 'pools_in_a_fanout_read_through_unpickled_handle', 'pools_in_a_cache_read_through_reopened_handle', 'pools', 'pairs_equal_identity', 'pairs_distinct_identity', 'flavour_cases', 'iteration_keys_checked',
             'jsondisk_pools', 'pickle_alias_candidates', 'keys_spelled_in_another_interpreter',
             'shadow_races_with_swap_before_file_open')
 ASSUMPTIONS = ('identity rule: str by code points, bytes by content, int64 and float by exact numeric value, '
@@ -121,12 +122,28 @@ def check_pool(dc, sc, res, rng, proto, disk_name, keys, label):
     settings = {'disk_pickle_protocol': proto}
     if jsond:
         settings['disk'] = dc.JSONDisk
-    cache = dc.Cache(d, **settings)
+    # the container and the handles are dimensions: a plain or a sharded cache; keys are stored through the handle that
+    # created the cache (with its settings) and through a second one - the same object, one reopened without repeating
+    # the settings, or an unpickled copy - and looked up through the second one.  (In a sharded cache an int and the
+    # float equal to it are routed by their type - known finding K2 of C13 - so such twins are left out there.)
+    container = rng.choice(['cache', 'cache', 'fanout'])
+    second = rng.choice(['same', 'reopened', 'unpickled'])
+    disk_kw = {'disk': dc.JSONDisk} if jsond else {}
+    if container == 'fanout':
+        nshards = rng.choice([2, 3, 8])
+        keys = [k for k in keys if not (type(k) is float and (k == int(k) if k == k and abs(k) != float('inf') else False))]
+        first = dc.FanoutCache(d, shards=nshards, **settings)
+        reopen = lambda: dc.FanoutCache(d, shards=nshards, **disk_kw)      # noqa: E731
+    else:
+        first = dc.Cache(d, **settings)
+        reopen = lambda: dc.Cache(d, **disk_kw)      # noqa: E731
+    cache = first if second == 'same' else reopen() if second == 'reopened' else pickle.loads(pickle.dumps(first))
+    res.count('pools_in_a_%s_read_through_%s_handle' % (container, second))
     ref = {}
     try:
         for n, k in enumerate(keys):
             try:
-                cache.set(k, n)
+                (first if n % 2 else cache).set(k, n)
             except Exception as exc:      # noqa: BLE001
                 res.violation('set(%r) raised %s' % (k, type(exc).__name__), {'label': label, 'key': k})
                 continue
@@ -139,11 +156,13 @@ def check_pool(dc, sc, res, rng, proto, disk_name, keys, label):
         # whole-cache comparison
         if len(cache) != len(ref):
             # find a witness pair
-            rows = observe.Observer(d)
-            try:
-                stored = [(observe.row_key(r['key'], r['raw']) if not jsond else None) for r in rows.rows()]
-            finally:
-                rows.close()
+            stored = []
+            for sd in ([d] if container == 'cache' else [os.path.join(d, '%03d' % i) for i in range(nshards)]):
+                rows = observe.Observer(sd)
+                try:
+                    stored += [(observe.row_key(r['key'], r['raw']) if not jsond else None) for r in rows.rows()]
+                finally:
+                    rows.close()
             sig = None
             wit = {'label': label, 'len_cache': len(cache), 'len_reference': len(ref), 'protocol': proto, 'disk': disk_name}
             if not jsond:
@@ -183,8 +202,9 @@ def check_pool(dc, sc, res, rng, proto, disk_name, keys, label):
                 if not same_id and isinstance(a, bytes) != isinstance(b, bytes):
                     res.count('pickle_alias_candidates')
         # iteration
-        for name, it in (('iter', list(cache)), ('reversed', list(reversed(cache))), ('iterkeys', list(cache.iterkeys())),
-                         ('iterkeys_rev', list(cache.iterkeys(reverse=True)))):
+        for name, it in ((('iter', list(cache)), ('reversed', list(reversed(cache)))) + ((
+                ('iterkeys', list(cache.iterkeys())), ('iterkeys_rev', list(cache.iterkeys(reverse=True))))
+                if container == 'cache' else ())):
             seen = set()
             for k in it:
                 res.count('iteration_keys_checked')
@@ -213,6 +233,7 @@ def check_pool(dc, sc, res, rng, proto, disk_name, keys, label):
                               {'label': label, 'missing': missing[:10]})
     finally:
         cache.close()
+        first.close()
         sc.drop(d)
 
 
